@@ -1050,11 +1050,11 @@ func drive(d *mon.Driver, replay string) int {
 			cases = append(cases, mon.NewCase(fmt.Sprintf("triples-%d", lo), "triples", caseData{Lo: lo, Hi: lo + step}))
 		}
 		r := d.Rand("cases")
-		nr := d.N(16, 64)
+		nr := d.N(32, 128)
 		for i := 0; i < nr; i++ {
-			cases = append(cases, mon.NewCase(fmt.Sprintf("random-%d", i), "random", caseData{Seed: r.Uint64(), N: d.N(2000, 20000)}))
-			cases = append(cases, mon.NewCase(fmt.Sprintf("sort-%d", i), "sort", caseData{Seed: r.Uint64(), N: d.N(300, 3000)}))
-			cases = append(cases, mon.NewCase(fmt.Sprintf("script-%d", i), "script", caseData{Seed: r.Uint64(), N: d.N(150, 1500)}))
+			cases = append(cases, mon.NewCase(fmt.Sprintf("random-%d", i), "random", caseData{Seed: r.Uint64(), N: d.N(8000, 40000)}))
+			cases = append(cases, mon.NewCase(fmt.Sprintf("sort-%d", i), "sort", caseData{Seed: r.Uint64(), N: d.N(1000, 6000)}))
+			cases = append(cases, mon.NewCase(fmt.Sprintf("script-%d", i), "script", caseData{Seed: r.Uint64(), N: d.N(400, 2500)}))
 		}
 	}
 	laws := map[string]int64{}
